@@ -60,6 +60,7 @@ structure St where
   names : List Nat := []            -- specialized_type_definition_names (insertion order, newest first)
   defs : List (Nat × MDef) := []    -- specialized_type_definitions (finished, newest first)
   closures : List Nat := []         -- specialized_closure_definitions
+  enumsStarted : List Nat := []     -- enum_type_names_in_progress (fix e715c2f): never shrinks
 deriving Repr, Inhabited
 
 def lookupDef (defs : List (Nat × MDef)) (n : Nat) : Option MDef :=
@@ -73,7 +74,10 @@ def typePermit (st : St) : Ty → Bool
   | .vec => false      -- not in `specialized_type_definitions`, not in `…_names`
   | .ref n =>
     match lookupDef st.defs n with
-    | none => st.names.contains n          -- "Recursive type currently being processed" (l.645-647)
+    -- "Recursive type currently being processed": a struct or closure is a pointer; an enum whose
+    -- layout is still being decided may be an i31 (fix e715c2f; before it the answer was
+    -- `names.contains n`, which conflated `S(Z)` with `Z` for `class Nat(Z, S(Nat))`)
+    | none => st.names.contains n && !st.enumsStarted.contains n
     | some (.struct _) => true
     | some (.enum rs) => rs.all VRepr.isBoxed
 
@@ -116,6 +120,18 @@ def layoutLoop (p : Ty → Bool) : List (List Ty) → Nat → LState → LState
 def layoutOf (p : Ty → Bool) (variants : List (List Ty)) : List VRepr :=
   (layoutLoop p variants 0 {}).out
 
+/-- The enum branch's loop body (l.584-611) for one variant, given the function that rewrites a
+type (`rewrite_type`): rewrite the field types, then ask `type_permit_enum_boxed_optimization` in
+the state reached, then `layoutStep`. Accumulator: (state, loop state, tag). -/
+def variantStep (dem : St → Ty → Option St) (acc : St × LState × Nat) (fs : List Ty) :
+    Option (St × LState × Nat) :=
+  match fs.foldlM dem acc.1 with
+  | none => none
+  | some s' => some (s', layoutStep acc.2.1 acc.2.2 fs (ansOf (typePermit s') fs), acc.2.2 + 1)
+
+/-- Finishing a definition: `specialized_type_definitions.insert` (l.615-618). -/
+def addDef (st : St) (n : Nat) (d : MDef) : St := { st with defs := (n, d) :: st.defs }
+
 /-- `rewrite_type` / `rewrite_id_type` (l.537-637) with explicit fuel (recursion depth). -/
 def demandTy (env : Env) : Nat → St → Ty → Option St
   | _, st, .int => some st
@@ -124,24 +140,22 @@ def demandTy (env : Env) : Nat → St → Ty → Option St
   | fuel + 1, st, .ref n =>
     match env[n]? with
     | none => none
-    | some d => do
-      let st1 ← d.targs.foldlM (fun s t => demandTy env fuel s t) st
-      if st1.names.contains n then some st1 else
-      let st2 := { st1 with names := n :: st1.names }
-      match d.body with
-      | .struct fs => do
-        let st3 ← fs.foldlM (fun s t => demandTy env fuel s t) st2
-        some { st3 with defs := (n, .struct fs.length) :: st3.defs }
-      | .enum vs => do
-        let (st3, l, _) ← vs.foldlM (fun (acc : St × LState × Nat) fs => do
-            let (s, l, tag) := acc
-            let s' ← fs.foldlM (fun s t => demandTy env fuel s t) s
-            let ans := ansOf (typePermit s') fs
-            some (s', layoutStep l tag fs ans, tag + 1)) (st2, ({} : LState), 0)
-        some { st3 with defs := (n, .enum l.out) :: st3.defs }
-      | .closure sig => do
-        let st3 ← sig.foldlM (fun s t => demandTy env fuel s t) st2
-        some { st3 with closures := n :: st3.closures }
+    | some d =>
+      match d.targs.foldlM (fun s t => demandTy env fuel s t) st with
+      | none => none
+      | some st1 =>
+        if st1.names.contains n then some st1 else
+        match d.body with
+        | .struct fs =>
+          (fs.foldlM (fun s t => demandTy env fuel s t) { st1 with names := n :: st1.names }).map
+            fun st3 => addDef st3 n (.struct fs.length)
+        | .enum vs =>
+          (vs.foldlM (variantStep (fun s t => demandTy env fuel s t))
+            ({ st1 with names := n :: st1.names, enumsStarted := n :: st1.enumsStarted }, ({} : LState), 0)).map
+            fun r => addDef r.1 n (.enum r.2.1.out)
+        | .closure sig =>
+          (sig.foldlM (fun s t => demandTy env fuel s t) { st1 with names := n :: st1.names }).map
+            fun st3 => { st3 with closures := n :: st3.closures }
 
 def demandAll (env : Env) (fuel : Nat) (roots : List Ty) : Option St :=
   roots.foldlM (fun s t => demandTy env fuel s t) {}
